@@ -1,7 +1,7 @@
 (* C03/BudgetProofs.v — round 5, second pass: the frames of the whole ProcessState against the LENGTH OF THE FILE.
    (1) quadratic budget: for every file-backed input, 48 x frames <= |file| x (|file| + 2);
    (2) no linear budget: for every c there is a dump whose processing yields more than c x |file| frames (thread-list
-       entries citing the same stack bytes; F-C03h). *)
+       entries citing the same stack bytes): the quadratic budget is tight up to a constant. *)
 From Coq Require Import Lia ZArith List Bool.
 From RM Require Import C08.Model C08.Proofs C03.Model C03.Proofs C03.FetchModel C03.FetchProofs C03.ProcessModel C03.ProcessProofs
   C03.BudgetModel.
